@@ -18,6 +18,10 @@ class Cell(NullCell):
     If you want to write to cell use .to_builder() method.
     """
     def __init__(self, bits: BitarrayLike, refs: typing.List["Cell"], cell_type: int = -1) -> None:
+        if not isinstance(bits, TvmBitarray):
+            # keep an own bounds-checked copy: a plain bitarray was padded in place by get_data_bytes()
+            # (changing the caller's array and this cell's bits) and let slices read past the end silently
+            bits = TvmBitarray(1023, bits)
         self.bits: BitarrayLike = bits
         self.refs: list = refs
         self.type_: int = cell_type
